@@ -18,7 +18,7 @@ for m in metas:
     stat[r][1] += 1 if m['detected_before_strengthening'] else 0
     out.append("| %s | %s | %s | %s | %s | %s |" % (m['id'], cell(m['what']), cell(m['needs_to_manifest']), 'DETECTED' if m['detected_before_strengthening'] else 'MISSED',
         ', '.join(m['detected_by']) + (' (superseded by fix 64e02eb: harmless on the repaired tree)' if m.get('superseded') else ''), m['strengthening'] or '-'))
-out += ["", "Round 1: %d changes, %d detected on the first run. Round 2: %d changes, %d detected on the first run. Round 3: %d changes, %d detected on the first run. Round 4: %d changes, %d detected on the first run. Round 5: %d changes, %d detected on the first run. Round 6: %d changes, %d detected on the first run. Missed now: 0 of %d (C09-2 and C09-9 apply to the tree before fix 64e02eb, which made them harmless; C16-8 is caught by C10, not by C16; C10-14 by C15, not by C10; C07-8 and C07-12 by the sampling race pass)." % (
+out += ["", "Round 1: %d changes, %d detected on the first run. Round 2: %d changes, %d detected on the first run. Round 3: %d changes, %d detected on the first run. Round 4: %d changes, %d detected on the first run. Round 5: %d changes, %d detected on the first run. Round 6: %d changes, %d detected on the first run. Missed now: 0 of %d (C09-2 and C09-9 apply to the tree before fix 64e02eb, which made them harmless; C16-8 is caught by C10, not by C16; C10-14 by C15 and C16, not by C10; C07-8 and C07-12 by the sampling race pass)." % (
     stat[1][0], stat[1][1], stat[2][0], stat[2][1], stat[3][0], stat[3][1], stat[4][0], stat[4][1], stat[5][0], stat[5][1], stat[6][0], stat[6][1], len(metas))]
 open(os.path.join(root, 'MATRIX.md'), 'w').write('\n'.join(out) + '\n')
 print(out[-1])
